@@ -166,6 +166,10 @@ CAL_CHANS = [(5, 1, 1, 1), (4, 0, 1, 3), (6, 2, 0, 0), (3, 1, 2, 2)]
 
 
 @common.safe
+def _dense(a):
+    return a.toarray() if hasattr(a, 'toarray') else a
+
+
 def calibration(item):
     dec_name, cname, size, dkw, chan, ndef, chunk_seed = item
     den = 8
@@ -200,7 +204,8 @@ def calibration(item):
             em.probability_distribution(other, p)
             em.generate(other, p, rng=np.random.default_rng(0))
     # failure table: outcome of a trial as a function of the error alone
-    stub = _Model()
+    LX = np.asarray(_dense(code.logicals_x)).astype(int).reshape(-1, 2 * n)
+    LZ = np.asarray(_dense(code.logicals_z)).astype(int).reshape(-1, 2 * n)
     succ = []
     for t in range(4 ** n):
         e = np.zeros(2 * n, dtype=np.uint8)
@@ -208,9 +213,18 @@ def calibration(item):
             d = (t // 4 ** q) % 4
             e[q] = d in (1, 2)
             e[n + q] = d in (2, 3)
-        stub.e = e
+        # decided here from the decoder's own answer (not through run_once, which
+        # is part of what is being calibrated): the trial succeeds iff error +
+        # correction has no syndrome and commutes with every logical operator
         dec = DECODERS[dec_name](code, em, p if dec_rate is None else dec_rate, **dkw)
-        succ.append(int(bool(DS.run_once(code, stub, dec, p)['success'])))
+        corr = np.asarray(_dense(dec.decode(code.measure_syndrome(e)))).ravel() % 2
+        tot = (e.astype(int) + corr.astype(int)) % 2
+        ok = not np.any(np.asarray(_dense(code.measure_syndrome(tot))).ravel() % 2)
+        if ok:
+            for L in (LX, LZ):
+                if np.any((L[:, :n] @ tot[n:] + L[:, n:] @ tot[:n]) % 2):
+                    ok = False
+        succ.append(int(ok))
     # the real simulation on the stratified grid, in arbitrary chunks
     dec = DECODERS[dec_name](code, em, p if dec_rate is None else dec_rate, **dkw)
     sim = DirectSimulation(code, em, dec, p, rng=Stratified(n, den), verbose=False)
